@@ -664,18 +664,35 @@ def _quant(I, a, isall):
 # ===================================================================== library table
 def np_asarray(I, a, k):
     x = a[0]
+    dt = Mo.dtype_name(k.get('dtype', a[1] if len(a) > 1 else None))
+    if dt == 'bool':
+        raise Unsupported('asarray(dtype=bool)')
     if Mo.is_list(x):
-        if x.nd and I_is_asarray(k):
+        if x.nd and I_is_asarray(k) and (dt is None or Mo.nd_dtype(I, x) == dt):
             return x
         r = Mo.snapshot_copy(I, x)
         _mark_nd(I, r)
-        return r
+        return _as_dtype(I, r, dt)
     if isinstance(x, tuple):
         r = I.st.alloc('clist', [np_asarray(I, [y], {}) if isinstance(y, tuple) or Mo.is_list(y) else y for y in x], nd=True)
-        return r
+        return _as_dtype(I, r, dt)
     if numkind(x) is not None:
-        return x         # 0-d array: treated as the scalar
+        return Mo.cast_scalar(I, x, dt)         # 0-d array: treated as the scalar
     raise Unsupported('asarray(%r)' % (x,))
+
+
+def _as_dtype(I, r, dt):
+    """the array in the requested element type; without a request numpy's inference: all-int stays int, a mixture of
+    ints and floats becomes float"""
+    if dt is None:
+        dt = Mo.nd_dtype(I, r)
+        if dt == 'bool':
+            return r
+    c = Mo.cast_value(I, r, dt)
+    if c is not r:
+        c.nd = True
+        Mo._deep_nd(I, c)
+    return c
 
 
 def I_is_asarray(k):
@@ -816,9 +833,15 @@ def _np_filled(value):
         dims = list(shape) if isinstance(shape, tuple) else [shape]
         if not all(isinstance(d, int) and not isinstance(d, bool) and d >= 0 for d in dims) or not 1 <= len(dims) <= 2:
             raise Unsupported('numpy.zeros/ones with a symbolic or >2-d shape')
+        dt = Mo.dtype_name(k.get('dtype', a[1] if len(a) > 1 else None))
+        val = value
+        if dt == 'int':
+            val = int(value)
+        elif dt == 'bool':
+            val = bool(value)
         if len(dims) == 1:
-            return I.st.alloc('clist', [value] * dims[0], nd=True)
-        return I.st.alloc('clist', [I.st.alloc('clist', [value] * dims[1], nd=True) for _ in range(dims[0])], nd=True)
+            return I.st.alloc('clist', [val] * dims[0], nd=True)
+        return I.st.alloc('clist', [I.st.alloc('clist', [val] * dims[1], nd=True) for _ in range(dims[0])], nd=True)
     return f
 
 
